@@ -40,6 +40,7 @@ type Env struct {
 	RouterIP netip.Addr
 	HostSrc  *net.UDPAddr // underlay address of the (malicious) local host
 	SCMPAuth bool
+	Detached bool // sibling links as detachedLink (the non-Linux flavour) instead of connectedLink
 	ifs      map[int]IfCfg
 	ias      map[string]addr.IA // overrides of the class -> IA mapping (neighbour routers)
 }
@@ -137,12 +138,16 @@ func NewEnv(cfg Cfg, scmpAuth, bfdAll bool) (*Env, error) {
 // NewEnvFor builds a router of AS local (forwarding key derived from master); ias overrides the
 // class -> IA mapping (a neighbour's router sees the first router's AS as one of its neighbours).
 func NewEnvFor(cfg Cfg, local addr.IA, master string, ias map[string]addr.IA, scmpAuth, bfdAll bool) (*Env, error) {
+	return newEnv(cfg, local, master, ias, scmpAuth, bfdAll, false)
+}
+
+func newEnv(cfg Cfg, local addr.IA, master string, ias map[string]addr.IA, scmpAuth, bfdAll, detached bool) (*Env, error) {
 	e := &Env{Cfg: cfg, Key: control.DeriveHFMacKey([]byte(master)), Local: local, Far: FarIA, ias: ias,
 		RouterIP: netip.MustParseAddr("10.0.0.1"),
 		HostSrc:  &net.UDPAddr{IP: net.ParseIP("10.0.0.77").To4(), Port: 40077},
-		SCMPAuth: scmpAuth, ifs: map[int]IfCfg{}}
+		SCMPAuth: scmpAuth, Detached: detached, ifs: map[int]IfCfg{}}
 	vc := router.VerifConfig{IA: e.Local, Key: e.Key, InternalAddr: "10.0.0.1:30042",
-		PortStart: 1024, PortEnd: 65535, SCMPAuth: scmpAuth,
+		PortStart: 1024, PortEnd: 65535, SCMPAuth: scmpAuth, SiblingDetached: detached,
 		BFDConfig: control.BFD{DetectMult: 3, DesiredMinTxInterval: time.Hour,
 			RequiredMinRxInterval: time.Hour}}
 	for _, i := range cfg.Ifs {
